@@ -33,8 +33,14 @@ type File struct {
 	Message           string // fully-qualified name of the file's main message
 	SyntaxUnspecified bool
 	HasService        bool
-	// ErrorLine/ErrorColumn are set when a compile error was planted (1-based).
+	// IsOptions marks the file that declares the workspace's custom message options;
+	// HasCustomOptions is set on files whose main message carries both of them.
+	IsOptions        bool
+	HasCustomOptions bool
+	// ErrorLine/ErrorColumn are set when a compile error was planted whose position is known by
+	// construction (1-based); PlantKind names the kind of planted error.
 	ErrorLine, ErrorColumn int
+	PlantKind              string
 }
 
 // Module is one generated module.
@@ -62,7 +68,16 @@ type Workspace struct {
 	// SuppliedWKT lists WKT paths the workspace itself supplies.
 	SuppliedWKT map[string]bool
 	Planted     *File
+	// OptionsFile declares two message options: src_note (number 50001, source retention)
+	// and rt_note (50002, runtime retention); nil when the workspace has none.
+	OptionsFile *File
 }
+
+// Field numbers of the custom message options.
+const (
+	SourceOptionNumber  = 50001
+	RuntimeOptionNumber = 50002
+)
 
 // Options bound the generator.
 type Options struct {
@@ -76,6 +91,8 @@ type Options struct {
 	// UnusedHeavy adds files with many unused imports: the compiler then emits many warnings
 	// from concurrently linking files.
 	UnusedHeavy bool
+	// CustomOptions allows a file declaring custom message options (one with source retention).
+	CustomOptions bool
 }
 
 var wktPaths = []string{"google/protobuf/timestamp.proto", "google/protobuf/duration.proto", "google/protobuf/empty.proto", "google/protobuf/any.proto"}
@@ -115,6 +132,18 @@ func New(t *tape.Tape, o Options) *Workspace {
 		ws.Modules = append(ws.Modules, m)
 	}
 	var order []*File
+	if o.CustomOptions && t.Draw("ws.custopts", 3) == 2 {
+		m := ws.Modules[0]
+		dir := m.Dirs[0]
+		f := &File{Module: 0, Path: dir + "/opts.proto", Syntax: "proto3", IsOptions: true}
+		f.Package = strings.ReplaceAll(dir, "/", ".")
+		f.Message = f.Package + ".OptsCarrier"
+		f.Imports = []Import{{Path: "google/protobuf/descriptor.proto", WKT: true, Used: true}}
+		ws.OptionsFile = f
+		order = append(order, f)
+		m.Files = append(m.Files, f)
+		ws.Files[f.Path] = f
+	}
 	for j := 0; j < total; j++ {
 		mi := j % nm
 		if j >= nm {
@@ -407,6 +436,13 @@ func (ws *Workspace) exports(path string) map[string]bool {
 }
 
 func render(t *tape.Tape, ws *Workspace, f *File, o Options) {
+	if f.IsOptions {
+		f.Content = "syntax = \"proto3\";\n\npackage " + f.Package + ";\n\nimport \"google/protobuf/descriptor.proto\";\n\n" +
+			"extend google.protobuf.MessageOptions {\n" +
+			fmt.Sprintf("  string src_note = %d [retention = RETENTION_SOURCE];\n  string rt_note = %d;\n}\n\n", SourceOptionNumber, RuntimeOptionNumber) +
+			"message OptsCarrier {\n  string name = 1;\n}\n"
+		return
+	}
 	var b strings.Builder
 	line := 1
 	w := func(s string) {
@@ -435,7 +471,15 @@ func render(t *tape.Tape, ws *Workspace, f *File, o Options) {
 			w("import \"" + imp.Path + "\";\n")
 		}
 	}
-	if len(f.Imports) > 0 {
+	plantKind := ""
+	if ws.Planted == f {
+		plantKind = tape.Pick(t, "ws.plantkind", []string{"undefined-type", "duplicate-number", "syntax", "duplicate-message", "missing-import", "undefined-type"})
+		f.PlantKind = plantKind
+	}
+	if plantKind == "missing-import" {
+		w(fmt.Sprintf("import \"does/not/exist_%d.proto\";\n", t.Draw("ws.nonce", 1000)))
+	}
+	if len(f.Imports) > 0 || plantKind == "missing-import" {
 		w("\n")
 	}
 	label := ""
@@ -487,6 +531,15 @@ func render(t *tape.Tape, ws *Workspace, f *File, o Options) {
 	for i := range f.Imports {
 		f.Imports[i].Used = credited[i]
 	}
+	if of := ws.OptionsFile; of != nil {
+		for i, imp := range f.Imports {
+			// (only where the import is used anyway: the options then do not change which imports are unused)
+			if imp.Path == of.Path && credited[i] && t.Draw("ws.useopts", 3) != 0 {
+				w(fmt.Sprintf("  option (%s.src_note) = \"source note of %s\";\n  option (%s.rt_note) = \"runtime note of %s\";\n", of.Package, short, of.Package, short))
+				f.HasCustomOptions = true
+			}
+		}
+	}
 	if !o.LintClean && t.Draw("ws.rich", 3) == 2 {
 		// more descriptor shapes: map, oneof, nested message, reserved ranges and names
 		w(fmt.Sprintf("  map<string, int64> counts = %d;\n", num))
@@ -501,13 +554,21 @@ func render(t *tape.Tape, ws *Workspace, f *File, o Options) {
 			w(fmt.Sprintf("  reserved %d to %d;\n  reserved \"old_name\", \"older_name\";\n", num+10, num+12))
 		}
 	}
-	if ws.Planted == f {
+	switch plantKind {
+	case "undefined-type":
 		f.ErrorLine = line
 		f.ErrorColumn = 3 + len(label)
 		w(fmt.Sprintf("  %sUndefinedType_%d bad = %d;\n", label, t.Draw("ws.nonce", 1000), num))
 		num++
+	case "duplicate-number":
+		w(fmt.Sprintf("  %sstring again = 1;\n", label))
+	case "syntax":
+		w(fmt.Sprintf("  %sstring broken = ;\n", label))
 	}
 	w("}\n")
+	if plantKind == "duplicate-message" {
+		w("\nmessage " + short + " {\n}\n")
+	}
 	if !o.LintClean && t.Draw("ws.enum", 3) == 1 {
 		en := fmt.Sprintf("E%s", short[1:])
 		w("\nenum " + en + " {\n")
@@ -555,5 +616,16 @@ func (ws *Workspace) Mutate(t *tape.Tape) map[string]string {
 			out[p] = c
 		}
 	}
+	// the previous version sometimes had several more files, each with its own package, that
+	// no longer exist: deleted files and packages are reported without a file position
+	if t.Draw("ws.deleted", 3) != 0 {
+		n := 2 + t.Draw("ws.ndeleted", 4)
+		for k := 0; k < n; k++ {
+			out[fmt.Sprintf("%s%d/old%d.proto", RemovedPrefix, k, k)] = fmt.Sprintf("syntax = \"proto3\";\npackage removed.p%d;\nmessage Old%d { string name = 1; }\nenum OldE%d { OLD_E%d_UNSPECIFIED = 0; }\n", k, k, k, k)
+		}
+	}
 	return out
 }
+
+// RemovedPrefix starts the directory names of files that exist only in the previous version.
+const RemovedPrefix = "zzremoved"
